@@ -1374,10 +1374,20 @@ impl MutableRepo {
                         dependents.push(parent);
                         continue;
                     };
-                    if let Some(rewrite) = self.parent_mapping.get(parent.id()) {
-                        for target in rewrite.new_parent_ids() {
-                            if to_visit_set.contains(target) && !visited.contains(target) {
-                                dependents.push(store.get_commit_async(target).await);
+                    // A replacement may itself have been rewritten or abandoned, so
+                    // follow the replacements transitively.
+                    let mut replaced_ids = vec![parent.id()];
+                    let mut seen_replaced_ids = HashSet::new();
+                    while let Some(replaced_id) = replaced_ids.pop() {
+                        if !seen_replaced_ids.insert(replaced_id) {
+                            continue;
+                        }
+                        if let Some(rewrite) = self.parent_mapping.get(replaced_id) {
+                            for target in rewrite.new_parent_ids() {
+                                if to_visit_set.contains(target) && !visited.contains(target) {
+                                    dependents.push(store.get_commit_async(target).await);
+                                }
+                                replaced_ids.push(target);
                             }
                         }
                     }
